@@ -1,4 +1,4 @@
-(* source: pdb2sql/StructureSimilarity.py:1287-1300 sha1 0ff3a0d7372fc26376ea1682531913867491f701 *)
+(* source: pdb2sql/StructureSimilarity.py:1281-1294 sha1 0ff3a0d7372fc26376ea1682531913867491f701 *)
 (* rmsd P Q = round (sqrt (msd P Q)) digits, msd = (1/n) * sum of squared coordinate differences *)
 Definition rmsd_shape_src : rmsd_shape := RmsdRoundSqrtMeanSq.
 Definition rmsd_digits_src : nat := 3%nat.
